@@ -6,7 +6,7 @@ from pyvc import native
 
 def run(rep, tier, seed):
     verify_all(rep, k_index.specs('C03') + k_index.refusal_specs('C03') + k_view.specs('C03')
-               + k_view.entry_specs('C03') + k_view.put_one_specs('C03') + k_view.dispatcher_specs('C03') + k_arglikes.specs('C03'))
+               + k_view.entry_specs('C03') + k_view.put_one_specs('C03') + k_view.dispatcher_specs('C03') + k_arglikes.specs('C03') + k_arglikes.merge_specs('C03'))
     k_index.callsite_structural(rep, 'C03')
     rep.trusted.append('assumed contract of FST._put_slice/_put_one (length law n\' = n - (b - a) + k, k == 1 for '
                        'one=True, k == 0 for delete) in the FSTView window-update obligations')
